@@ -17,7 +17,10 @@ from sim.pool import (
     m_xsi as mx,
 )
 
-LATE = {"L1": "sim.pool.m_late1", "L2": "sim.pool.m_late2"}
+LATE = {"L1": "sim.pool.m_late1", "L2": "sim.pool.m_late2", "L3": "sim.pool.m_conv"}
+# L3 defines no models: it registers a converter. Calls about these classes give another result once it is imported;
+# every other call is taken to be unaffected by it (its reference is the one without L3).
+L3_SENSITIVE = {"m_edge.Stocked"}
 
 import sys as _sys
 
@@ -251,6 +254,15 @@ OBJS = {
     "group": (lambda: me.Group(name="a", child=me.Folder(name="b", child=me.Group(name="c"))), "m_edge.Group"),
     "chain": (lambda: me.Chain(label="a", next=me.BoldChain(label="b", next=me.Chain(label="c"))), "m_edge.Chain"),
     "mixedmoney": (lambda: me.MixedMoney(content=["costs ", AnyElement(qname="{urn:e}amount", text="1.50"), " or ", AnyElement(qname="{urn:e}count", text="3", tail=" pieces")]), "m_edge.MixedMoney"),
+    "measure_int_str": (lambda: me.Measure(items=["1"]), "m_edge.Measure"),
+    "measure_float_str": (lambda: me.Measure(items=["1.5"]), "m_edge.Measure"),
+    "measure_date_str": (lambda: me.Measure(items=["2024-02-29"]), "m_edge.Measure"),
+    "measure_dec_str": (lambda: me.Measure(items=["10.50", "x"]), "m_edge.Measure"),
+    "measure_typed": (lambda: me.Measure(items=[1, 1.5, XmlDate(2020, 2, 29), Decimal("2.50")]), "m_edge.Measure"),
+    "invoice_v1": (lambda: me.InvoiceV1(number="A-1", total=Decimal("10.00")), "m_edge.InvoiceV1"),
+    "invoice_v2": (lambda: me.InvoiceV2(number="B-2", total=Decimal("20.00")), "m_edge.InvoiceV2"),
+    "invoice_none": (lambda: me.InvoiceNone(number="C-3"), "m_edge.InvoiceNone"),
+    "stocked": (lambda: me.Stocked(sku=me.Sku("AB-1"), alt=me.Sku("CD-2"), qty=3), "m_edge.Stocked"),
     "attrmix": (lambda: me.AttrMix(id="i", lang="en", space="preserve", qualified=4, rest={"{urn:o}x": "1", "plain": "p"}, value=7), "m_edge.AttrMix"),
 }
 # objects whose annotations resolve only with SerializerConfig.globalns: serialized with that configuration only
@@ -421,6 +433,10 @@ _x("hw_stamped", "m_edge.Stamped", """<stamped xmlns="urn:e" days="1999-12-31 20
 _x("hw_group", "m_edge.Group", """<e:group xmlns:e="urn:e" name="a"><e:child name="b"><e:child name="c"><e:child name="d"/></e:child></e:child></e:group>""")
 _x("hw_chain", "m_edge.Chain", """<e:chain xmlns:e="urn:e" xmlns:xsi="http://www.w3.org/2001/XMLSchema-instance" label="a"><e:next label="b" xsi:type="e:boldChain"><e:next label="c"/></e:next></e:chain>""")
 _x("hw_mixedmoney", "m_edge.MixedMoney", """<e:mixedMoney xmlns:e="urn:e">costs <e:amount>1.50</e:amount> or <e:count>3</e:count> pieces at <e:ratio>0.5</e:ratio> <e:b>bold</e:b> <e:other>x</e:other></e:mixedMoney>""")
+_x("hw_invoice_v1", "m_edge.InvoiceV1", """<i:invoice xmlns:i="urn:invoice:v1" total="1.0"><i:number>n1</i:number></i:invoice>""")
+_x("hw_invoice_v2", "m_edge.InvoiceV2", """<i:invoice xmlns:i="urn:invoice:v2" total="2.0"><i:number>n2</i:number></i:invoice>""")
+_x("hw_invoice_none", "m_edge.InvoiceNone", """<invoice total="3.0"><number>n3</number></invoice>""")
+_x("hw_stocked", "m_edge.Stocked", """<e:stocked xmlns:e="urn:e" alt="CD-2"><e:sku>AB-1</e:sku><e:qty>3</e:qty></e:stocked>""")
 _x("hw_attrmix", "m_edge.AttrMix", """<e:attrMix xmlns:e="urn:e" xmlns:o="urn:o" id="i" xml:lang="en" xml:space="preserve" e:qualified="4" o:x="1" plain="p"> 7 </e:attrMix>""")
 _x("hw_item_constructs", "m_basic.Item", """<?xml version="1.0"?><!DOCTYPE item [<!ENTITY nm "entity name">]><?pi before?><!-- c --><item xmlns="urn:basic" id="&#49;" xml:lang="en"><?pi inside?><name>&nm; <![CDATA[<cdata>]]> &amp;<!-- in text --> end</name><qty><![CDATA[2]]></qty></item><!-- after --><?pi after?>""")
 _x("hw_item_leapday", "m_basic.Item", """<item xmlns="urn:basic" id="1"><name>leap</name><when>2024-02-29</when><stamp>2024-02-29T10:00:00Z</stamp><at>23:59:59.999</at><took>P1Y2M3DT4H5M6.5S</took></item>""")
@@ -499,6 +515,11 @@ JSON = {
     "js_stamped": ('{"release": "2021-06-30T23:59:59+02:00", "days": ["2020-02-29"], "at": "2020-01-01T00:00:00", "opens": "09:00:00"}', "m_edge.Stamped", None),
     "js_group": ('{"name": "a", "child": {"name": "b", "child": {"name": "c", "child": null}}}', "m_edge.Group", None),
     "js_chain": ('{"label": "a", "next": {"label": "b", "next": {"label": "c", "next": null}}}', "m_edge.Chain", None),
+    "js_measure_dec": ('{"items": ["10.50"]}', "m_edge.Measure", None),
+    "js_measure_date": ('{"items": ["2024-02-29"]}', "m_edge.Measure", None),
+    "js_measure_int": ('{"items": ["7"]}', "m_edge.Measure", None),
+    "js_measure_float": ('{"items": ["7.5", "NaN"]}', "m_edge.Measure", None),
+    "js_stocked": ('{"sku": "AB-1", "alt": null, "qty": 3}', "m_edge.Stocked", None),
     "js_attrmix": ('{"id": "i", "lang": "en", "space": null, "qualified": 4, "rest": {"{urn:o}x": "1", "plain": "p"}, "value": 7}', "m_edge.AttrMix", None),
     "js_noclass_thing_w": ('{"w": 5}', None, None),
     "js_noclass_thing_v": ('{"v": "only the local type has this"}', None, None),
